@@ -20,6 +20,8 @@ ROLES0 = {'R': '31', 'B': '34', 'G': '32', 'W': '1', 'F': '2', 'N': '22', 'U': '
           'L': '38;5;0', 'Q': '48;2;0;0;0',
           # a verbatim selector that lacks its last parameter: in a rendering it runs into the setting that follows it
           'P': '[38;5',
+          # a verbatim setting whose first code belongs to another group than the code that matters (bold, then red)
+          'Y': '[1;31',
           'O': '53', 'E': '52', 'I': '3', 'H': '9', 'J': '26', 'S': '11', 'K': '5', 'C': '58;5;9', 'A': '55', 'V': '54',
           'b': 'name:bold', 'r': 'name:fg_red'}
 FG1 = ['31', '34', '32', '33', '35', '36', '91', '94', '92']
@@ -193,7 +195,7 @@ def std_gen(task, seed, maxlen=6):
     codes = [R[c] for c in task['roles']]
     cache = {}
 
-    wide = task['layout'] in ('wide', 'wide2')
+    wide = task['layout'] in ('wide', 'wide2', 'widep')
 
     def gen(v, h):
         L = len(v)
@@ -248,6 +250,8 @@ def std_pool(task, seed, acc=None):
                      ['assign', text[:1] + '\x1b[1m' + text[1:]]]
     elif task['layout'] == 'esc2':
         seed_hist = [['parse', text[:1] + '\x1b[4'], ['apply', roles(seed)['R'], 0, 2, True], ['icat', ['lit', 'm' + text[1:]]]]
+    elif task['layout'] == 'widep':
+        seed_hist = [['plain', text]]        # a value that came straight out of the parser (nothing applied yet)
     elif task['layout'] == 'wide':
         seed_hist = [['rainbow', text]]
     elif task['layout'] == 'wide2':
